@@ -776,6 +776,33 @@ def rule_timeout_reply(ctx, R):
 
 
 # ---- R-BLK-EXPIRE-ALL -----------------------------------------------------------------------------
+def expiry_selection(ctx, g):
+    """[(body, membership tests, selection sites, offending block or None)] for the expiry function g"""
+    import boolpath
+    SEL = r"Vec::<usize>::push$|VecDeque::<usize>::push_back$|VecDeque::<.*BlockedClient>::(remove|swap_remove_back|swap_remove_front|drain|retain|retain_mut|pop_front|pop_back|truncate)"
+    MEM = r"(slice::<impl \[u64\]>|Vec::<u64>|HashSet::<u64>|BTreeSet::<u64>|VecDeque::<u64>)::(contains|insert|binary_search|get)(::<.*>)?$"
+    out = []
+    for body in shared.closure_tree(ctx, g):
+        sels = [i for i, t in body.calls() if re.search(SEL, t["f"] or "") and not body.bbs[i]["cleanup"]]
+        tests = [i for i, t in body.calls() if re.search(MEM, t["f"] or "") and body.locals[t["d"]["l"]] == "bool"]
+        pred = body.kind == "Closure" and body.locals[0] == "bool"      # a retain predicate: its answer selects
+        bad = None
+        if tests and (sels or pred):
+            base = boolpath.explore(body, boolpath.Spec(), cap=100000)
+            for kind in (boolpath.A, boolpath.N):
+                class _S(boolpath.Spec):
+                    def call(self, b_, bbi, t, kind=kind, tests=set(tests)):
+                        return kind if bbi in tests else None
+                ex = boolpath.explore(body, _S(), cap=100000)
+                ctl = [s for s in sels if s in base.reached and s not in ex.reached]
+                if ctl:
+                    bad = ctl[0]
+                if pred and (ex.ret_vals & {boolpath.A, boolpath.N}):
+                    bad = tests[0]
+        out.append((body, tests, sels + ([-1] if pred else []), bad))
+    return out
+
+
 def rule_expire_all(ctx, R):
     """every registration of a timed-out client leaves its queue in the same pass: which entries
     the expiry function takes out is decided by the deadline alone, never by a membership test on
@@ -786,35 +813,18 @@ def rule_expire_all(ctx, R):
     push into the result, not the selection / removal.)"""
     import boolpath
     g = expired_fn(ctx)
-    SEL = r"Vec::<usize>::push$|VecDeque::<usize>::push_back$|VecDeque::<network::blocking::BlockedClient>::(remove|swap_remove_back|swap_remove_front|drain|retain|retain_mut|pop_front|pop_back|truncate)"
-    MEM = r"(slice::<impl \[u64\]>|Vec::<u64>|HashSet::<u64>|BTreeSet::<u64>|VecDeque::<u64>)::(contains|insert|binary_search|get)(::<.*>)?$"
     nsel = 0; ntests = 0
-    for body in shared.closure_tree(ctx, g):
-        sels = [i for i, t in body.calls() if re.search(SEL, t["f"] or "") and not body.bbs[i]["cleanup"]]
-        tests = [i for i, t in body.calls() if re.search(MEM, t["f"] or "") and body.locals[t["d"]["l"]] == "bool"]
-        pred = body.kind == "Closure" and body.locals[0] == "bool"      # a retain predicate: its answer selects
-        nsel += len(sels) + (1 if pred else 0)
-        ntests += len(tests)
-        if not tests or not (sels or pred):
+    try:
+        res = expiry_selection(ctx, g)
+    except boolpath.TooManyStates as e:
+        R.broken.append(str(e)); return
+    for body, tests, sels, bad in res:
+        nsel += len(sels); ntests += len(tests)
+        if not tests:
             continue
-        try:
-            base = boolpath.explore(body, boolpath.Spec(), cap=100000)
-            bad = None
-            for kind in (boolpath.A, boolpath.N):
-                class _S(boolpath.Spec):
-                    def call(self, b_, bbi, t, kind=kind, tests=set(tests)):
-                        return kind if bbi in tests else None
-                ex = boolpath.explore(body, _S(), cap=100000)
-                ctl = [s for s in sels if s in base.reached and s not in ex.reached]
-                if ctl:
-                    bad = ("selection", ctl[0])
-                if pred and (ex.ret_vals & {boolpath.A, boolpath.N}):
-                    bad = ("predicate", tests[0])
-        except boolpath.TooManyStates as e:
-            R.broken.append(str(e)); continue
         R.inst(g.fn, "expiry-selection:" + body.fn.split("::")[-1], {"body": body.fn, "membership_tests_on_ids": len(tests), "selection_sites": len(sels), "selection_depends_on_a_membership_test": bad is not None})
-        if bad:
+        if bad is not None:
             R.finding(g.fn, "expiry-selection:depends-on-ids-already-collected",
-                      "%s decides which queue entries to take out (line %d) under a membership test on connection ids: an expired client that was already collected under another key keeps its other registrations, which time out later and answer nil to a blocking call made since" % (g.fn.split("::")[-1], body.bb_line(bad[1])), body.loc(bad[1]))
+                      "%s decides which queue entries to take out (line %d) under a membership test on connection ids: an expired client that was already collected under another key keeps its other registrations, which time out later and answer nil to a blocking call made since" % (g.fn.split("::")[-1], body.bb_line(bad)), body.loc(bad))
     R.inst(g.fn, "expiry-selection", {"function": g.fn, "selection_sites": nsel, "membership_tests_on_ids": ntests})
     R.floor("expiry_selection_sites", nsel)
